@@ -1,0 +1,17 @@
+//go:build verif
+
+package eval
+
+import "src.elv.sh/pkg/eval/vals"
+
+// Verification harnesses for gvc (/verif): compiled only with the build tag
+// "verif", never called. They call the real arithmetic builtins with two (or
+// one) arguments so that the argument loops can be unrolled completely
+// (properties C11 and C12; the loops treat every further argument like the second).
+
+func verifAdd2(a, b vals.Num) vals.Num          { return add(a, b) }
+func verifMul2(a, b vals.Num) vals.Num          { return mul(a, b) }
+func verifSub2(a, b vals.Num) (vals.Num, error) { return sub(a, b) }
+func verifSub1(a vals.Num) (vals.Num, error)    { return sub(a) }
+func verifDiv2(a, b vals.Num) (vals.Num, error) { return div(a, b) }
+func verifDiv1(a vals.Num) (vals.Num, error)    { return div(a) }
